@@ -86,6 +86,8 @@ def runCombCase (line : String) : String × String :=
       let r := ResultExt.andDo (rIn i) (· + 1000)
       (showR (rStr r.1), r.2)
     else ("bad-combinator", 0)
+  -- `t=zst`: the zero-sized instantiation carries no data; the observation is the case and the call count
+  let shown := if field fs "t" == "zst" then ":".intercalate ((shown.splitOn ":").take 2) else shown
   (s!"{shown}|{calls}", s!"k={k} in={i}")
 
 end Driver
